@@ -1,6 +1,6 @@
 """C14 - page checksums are IEEE CRC-32 and page damage is always detected.
 
-Proof: coq/theories/Props/Properties_C14.v (12 theorems; model Util/Crc32Model.v, spec Util/Crc32Spec.v).
+Proof: coq/theories/Props/Properties_C14.v (13 theorems; model Util/Crc32Model.v, spec Util/Crc32Spec.v).
 Tie:   (a) CRC32_POLY regenerated from src/util/crc32.c; the guard of every carquet_crc32 call site of
        src/reader/page_reader.c translated to Gallina (tools/gen.d/crcsites.py -> Gen/CrcSites_gen.v) and proved
        equal to the model's decision (Util/Crc32Sites.v); (b) carquet_crc32/_update vs extracted model vs
